@@ -571,8 +571,11 @@ def param_tags(p, prev_has_default=False):
             t.add("single_literal")
         if len(typ) > 90:
             t.add("long_type")
-        if "Literal" in names and any(isinstance(n, ast.Constant) and isinstance(n.value, int) for n in ast.walk(ast.parse(typ, mode="eval"))):
-            t.add("int_literal")
+        try:
+            if "Literal" in names and any(isinstance(n, ast.Constant) and isinstance(n.value, int) for n in ast.walk(ast.parse(typ, mode="eval"))):
+                t.add("int_literal")
+        except SyntaxError:
+            t.add("unparsable_type")
     if doc is not None:
         if "\n" in doc:
             t.add("multiline_prose")
